@@ -3275,7 +3275,7 @@ class StateEngine(object):
                     context_state["Name"] = map_state_name
                     context_state["EnteredTime"] = map_state_entered
 
-                    if item_selector:
+                    if item_selector is not None:  # N.B. {} is a valid template
                         # Store the index and value in the context as described above.
                         context["Map"] = {
                             "Item": {
